@@ -533,6 +533,67 @@ fn main() {
 				sink_runs += explore(&c, Budget { refusals: 0, faults: 0, max_runs: 1 }, &mut |c, r| out.emit(c, r));
 			}
 		}
+		// everything again, called from a destructor while the thread is already unwinding from an
+		// unrelated panic (`thread::panicking()` is true throughout; inner panics are caught inside
+		// the destructor): every API x exit on small shapes, key probes before / inside / after,
+		// poisoning, two sessions in a row; and, with non-panicking exits, one raw-lock fault
+		"unwind" => {
+			for n in 1..=2usize {
+				for kinds in kinds_menu(n, true) {
+					let rw_all = kinds.iter().all(|k| *k);
+					let perm: Vec<usize> = (0..n).rev().collect();
+					let mut held = vec![b'F'; n];
+					held.push(b'!');
+					for (_name, colls) in shape_menu(n, &kinds, 1) {
+						let tgt = colls.len() - 1;
+						let modes: &[bool] = if rw_all { &[true, false] } else { &[true] };
+						for &write in modes {
+							let body = if write { vec![Step::Write(0, 7), Step::GetKey] } else { vec![Step::Read(0), Step::GetKey] };
+							let mut sess: Vec<Stmt> = Vec::new();
+							for (api, exits) in [
+								(Api::Lock, vec![Exit::Drop, Exit::Unlock, Exit::Panic]),
+								(Api::Try, vec![Exit::Drop, Exit::Panic]),
+								(Api::Scoped, vec![Exit::Ret, Exit::Panic]),
+								(Api::ScopedTry, vec![Exit::Ret, Exit::Panic]),
+							] {
+								for e in exits {
+									let scoped = matches!(api, Api::Scoped | Api::ScopedTry);
+									sess.push(session(tgt, api, write, true, body.clone(), e));
+									if scoped {
+										sess.push(session(tgt, api, write, false, body.clone(), e));
+									}
+								}
+							}
+							for (i, s1) in sess.iter().enumerate() {
+								// one session, with key probes around it and the flag read afterwards
+								let prog = vec![Stmt::Get, Stmt::Get, s1.clone(), Stmt::Get, Stmt::IsPoisoned(tgt), Stmt::Dbg(tgt, None)];
+								let c = base(format!("{family}{bi}"), n, &perm, &colls, &held, prog);
+								bi += 1;
+								sink_runs += explore(&c, Budget { refusals: 1, faults: 0, max_runs: 20 }, &mut |c, r| out.emit(c, r));
+								// a second session on what the first one left behind
+								let s2 = &sess[(i * 7 + 3) % sess.len()];
+								let prog = vec![Stmt::Get, s1.clone(), Stmt::Get, s2.clone(), Stmt::Get, Stmt::IsPoisoned(tgt)];
+								let c = base(format!("{family}{bi}"), n, &perm, &colls, &held, prog);
+								bi += 1;
+								sink_runs += explore(&c, Budget { refusals: 0, faults: 0, max_runs: 1 }, &mut |c, r| out.emit(c, r));
+								// one raw-lock fault (only where nothing else panics: a second panic in cleanup
+								// code would abort, which cannot be told apart here)
+								let non_panicking = match s1 {
+									Stmt::Ses(x) => !matches!(x.exit, Exit::Panic),
+									_ => false,
+								};
+								if non_panicking {
+									let prog = vec![Stmt::Get, s1.clone(), Stmt::Get];
+									let c = base(format!("{family}{bi}"), n, &perm, &colls, &held, prog);
+									bi += 1;
+									sink_runs += explore(&c, Budget { refusals: 0, faults: 1, max_runs: 60 }, &mut |c, r| out.emit(c, r));
+								}
+							}
+						}
+					}
+				}
+			}
+		}
 		// single-thread histories over the key-affecting vocabulary (C06, C03) on a tiny world:
 		// m0 free, m1 write-held by another thread (so that try fails), P0(m0)
 		"hist" => {
